@@ -56,6 +56,7 @@ func c15types() []c15type {
 			}},
 		{"bits", "bits { bit b0 { position 0; } bit b1 { position 1; } bit b5 { position 5; } }", func(r *core.Rng) string { return core.Pick(r, []string{"b0", "b0 b5", "b1 b5", ""}) }, func(s string, _ bool) (string, string) { return "s", s }},
 		{"identityref", "identityref { base idb; }", func(r *core.Rng) string { return core.Pick(r, []string{"d1", "d2"}) }, func(s string, _ bool) (string, string) { return "s", s }},
+		{"binary", "binary", func(r *core.Rng) string { return core.Pick(r, []string{"aGVsbG8gd29ybGQ=", "+//+", "/+8=", "AA==", "Zm9v"}) }, func(s string, _ bool) (string, string) { return "s", s }},
 		{"union8", "union { type int8; type int32; }", func(r *core.Rng) string { return core.Pick(r, []string{"100", "-128", "127", "128", "200", "255", "256", "-129", "70000"}) }, func(s string, _ bool) (string, string) { return "n", s }},
 		{"union", "union { type int32; type string; }", func(r *core.Rng) string { return core.Pick(r, []string{"5", "-7", "abc", "x y"}) }, func(s string, _ bool) (string, string) {
 			if _, err := fmt.Sscanf(s, "%d", new(int)); err == nil && !strings.Contains(s, " ") {
